@@ -29,6 +29,12 @@ from .oracle import Undecided
 MAXBITS_ENUM = lang.Enum.MAXBITS
 
 
+def _mentions_false(G):
+    """a concrete FALSE was added to one of the solvers involved: as a member of the expected constraint set, or (merge) inside the expected
+    disjunction over the inputs"""
+    return "FALSE" in G or any("FALSE" in oracle.show_item(x) for x in G if not isinstance(x, str))
+
+
 class OracleDisagreement(Exception):
     pass
 
@@ -463,7 +469,7 @@ class Run:
             if G:
                 self.nontrivial = True
             if self._ghost_mask(want) != m:
-                qual = "+false" if "FALSE" in G else ""
+                qual = "+false" if _mentions_false(G) else ""
                 return self._fail(i, on, f"{op}/model-set{qual}", [oracle.show_item(x) for x in _sorted_items(G)],
                                   [str(c) for c in result.constraints], detail="model sets differ (enumeration)")
             return None
@@ -483,7 +489,7 @@ class Run:
         if ok is None:
             raise Undecided("z3 unknown in equivalence check")
         if not ok:
-            qual = "+false" if "FALSE" in G else ""
+            qual = "+false" if _mentions_false(G) else ""
             return self._fail(i, on, f"{op}/model-set{qual}", [oracle.show_item(x) for x in _sorted_items(G)],
                               [str(c) for c in result.constraints], detail=f"distinguishing assignment {model}")
         return None
